@@ -9,13 +9,13 @@
  *   Reg    scalars n                            arrays yt yp q(msen msed maen maed r2n r2d biasn biasd)      99 = missing-coded truth
  *   PlsReg scalars n ny nlv   (also Mlr)        arrays mt mp q(8 per (lv, j))
  *   PlsDa  scalars n ny nlv                     arrays mt mp ent(auc2 p nn apn apd per (lv, j)) roc pr
- * replay output:  Res{fam,i,ok[,fn,what,got,want,in]}  one per case;  Done{cases};  Crash{fam,i}
+ * replay output:  Res{fam,i,ok[,fails[{fn,shifted,what,got,want}]]}  one per case (first mismatch per library function);  Done{cases};  Crash{fam,i}
  * trace output (integers only, read by TLC against spec/TraceStats.tla):
  *   Reset{n}
  *   Roc{kind,n,y,ord,p,nn,pts,res,auc2,aucres}  Area{ca2,cares}  Pr{pr,prres,ap9}     kind: base | mono | perm | neg
  *       pts = round(x*N), round(y*P) of every returned point, res = largest distance of a coordinate from that fraction (1e-12 units),
  *       auc2 = round(auc*2PN) (+ residual), ca2 the same for curve_area() called on the returned points, pr = [round(recall*P), index]
- *   RegIn{n,exp,yt,yp,m}  Mse{ssen,res}  Mae{saen,res}  Rmse{res}  R2{q}  Bias{q}           q in units of 1e-4
+ *   RegIn{n,exp,off,yt,yp,m}  Mse{ssen,res}  Mae{saen,res}  Rmse{res}  R2{q}  Bias{q}           q in units of 1e-4
  */
 #include "scientific.h"
 #include "verif_rt.h"
@@ -58,12 +58,22 @@ static int read_case(FILE *f, scase *q){
 static void free_case(scase *q){ for(int i = 0; i < q->narr; i++) free(q->a[i].v); }
 static void need(arr *a, int n){ if(a->len != n){ fprintf(stderr, "array has %d cells, expected %d\n", a->len, n); exit(2); } }
 
-/* ---- mismatch bookkeeping (first one per case) ---- */
-static struct { int bad; const char *fn; char what[160]; double got, want; } mm;
+static char jb[1 << 17]; static int jp;
+#define J(...) do{ jp += snprintf(jb + jp, sizeof(jb) - jp, __VA_ARGS__); if(jp >= (int)sizeof(jb) - 64){ fprintf(stderr, "event too long\n"); exit(2); } }while(0)
+static void jints(const char *key, long *v, int n){ J(",\"%s\":[", key); for(int i = 0; i < n; i++) J("%s%ld", i ? "," : "", v[i]); J("]"); }
+
+/* ---- mismatch bookkeeping ---- */
+static double cur_off = 0.0;                     /* common offset of the variant being evaluated (0 = unshifted) */
+/* first mismatch per library function (so that one failing function does not hide another in the same case) */
+#define MAXMM 8
+static struct { int bad, shifted; const char *fn; char what[160]; double got, want; } mmv[MAXMM];
+static int nmm = 0;
 static void miss(const char *fn, double got, double want, const char *fmt, ...){
-  if(mm.bad) return;
-  mm.bad = 1; mm.fn = fn; mm.got = got; mm.want = want;
-  va_list ap; va_start(ap, fmt); vsnprintf(mm.what, sizeof(mm.what), fmt, ap); va_end(ap);
+  for(int i = 0; i < nmm; i++) if(!strcmp(mmv[i].fn, fn)) return;
+  if(nmm >= MAXMM) return;
+  mmv[nmm].bad = 1; mmv[nmm].shifted = cur_off != 0.0; mmv[nmm].fn = fn; mmv[nmm].got = got; mmv[nmm].want = want;
+  va_list ap; va_start(ap, fmt); vsnprintf(mmv[nmm].what, sizeof(mmv[nmm].what), fmt, ap); va_end(ap);
+  nmm++;
 }
 static int near_(double got, double want, double rel, double floor_){
   if(got == want) return 1;
@@ -119,34 +129,47 @@ static void replay_roc(scase *q){
 }
 
 /* ---- Reg family: R2 MSE RMSE MAE BIAS at three dyadic scales ---- */
-static void check_reg(const char *pre, dvector *yt, dvector *yp, long *e8, int ex){
+static void check_reg(double tol, dvector *yt, dvector *yp, long *e8, int ex){
   double s1 = ldexp(1.0, ex), s2 = ldexp(1.0, 2 * ex);
-  (void)pre;
+#undef TOL
+#define TOL tol
   if(e8[1] > 0){
     double wmse = (double)e8[0] * s2 / (double)e8[1], wmae = (double)e8[2] * s1 / (double)e8[3];
-    double g = MSE(yt, yp); if(!near_(g, wmse, TOL, s2)) miss("MSE", g, wmse, "scale 2^%d: sum of squared errors %ld over %ld present truths", ex, e8[0], e8[1]);
-    g = MAE(yt, yp); if(!near_(g, wmae, TOL, s1)) miss("MAE", g, wmae, "scale 2^%d: sum of absolute errors %ld over %ld present truths", ex, e8[2], e8[3]);
-    g = RMSE(yt, yp); if(!(g >= 0.0) || !near_(g * g, wmse, TOL, s2)) miss("RMSE", g * g, wmse, "scale 2^%d: RMSE^2 must equal MSE", ex);
-    if(!(MAE(yt, yp) <= RMSE(yt, yp) * (1.0 + 1e-12))) miss("MAE", MAE(yt, yp), RMSE(yt, yp), "scale 2^%d: MAE <= RMSE", ex);
+    double g = MSE(yt, yp); if(!near_(g, wmse, TOL, s2)) miss("MSE", g, wmse, "offset %g scale 2^%d: sum of squared errors %ld over %ld present truths", cur_off, ex, e8[0], e8[1]);
+    g = MAE(yt, yp); if(!near_(g, wmae, TOL, s1)) miss("MAE", g, wmae, "offset %g scale 2^%d: sum of absolute errors %ld over %ld present truths", cur_off, ex, e8[2], e8[3]);
+    g = RMSE(yt, yp); if(!(g >= 0.0) || !near_(g * g, wmse, TOL, s2)) miss("RMSE", g * g, wmse, "offset %g scale 2^%d: RMSE^2 must equal MSE", cur_off, ex);
+    if(!(MAE(yt, yp) <= RMSE(yt, yp) * (1.0 + 1e-12))) miss("MAE", MAE(yt, yp), RMSE(yt, yp), "offset %g scale 2^%d: MAE <= RMSE", cur_off, ex);
   }
   if(e8[5] > 0){
     double w = (double)e8[4] / (double)e8[5], g = R2(yt, yp);
-    if(!near_(g, w, TOL, 1.0)) miss("R2", g, w, "scale 2^%d: R2 = %ld/%ld", ex, e8[4], e8[5]);
+    if(!near_(g, w, TOL, 1.0)) miss("R2", g, w, "offset %g scale 2^%d: R2 = %ld/%ld", cur_off, ex, e8[4], e8[5]);
     if(!(g <= 1.0 + TOL)) miss("R2", g, 1.0, "R2 <= 1");
     w = (double)e8[6] / (double)e8[7]; g = BIAS(yt, yp);
-    if(!near_(g, w, TOL, 1.0)) miss("BIAS", g, w, "scale 2^%d: |1 - slope| = %ld/%ld", ex, e8[6], e8[7]);
+    if(!near_(g, w, TOL, 1.0)) miss("BIAS", g, w, "offset %g scale 2^%d: |1 - slope| = %ld/%ld", cur_off, ex, e8[6], e8[7]);
   }
+#undef TOL
+#define TOL 1e-12
 }
 static const int EXPS[3] = { -20, 0, 20 };
+/* variants: unshifted at three dyadic scales first, then truths and predictions moved by a common offset of 2^20 / 2^30 units
+ * (exactly representable).  By Stats!ThShiftInvariant / ThScaleLaw the SAME exact values apply; the tolerance at an offset (1e-8)
+ * reflects only the conditioning of a computation on deviations (mean rounded to 1 ulp: relative effect ~ 1e-13 at 2^30). */
+static const struct { double off; int ex; } VAR[9] = { {0, -20}, {0, 0}, {0, 20}, {1048576.0, 0}, {1073741824.0, 0}, {-1073741824.0, 0},
+                                                       {1048576.0, -20}, {1073741824.0, 20}, {33554432.0, 7} };
 static void replay_reg(scase *q){
   int n = (int)q->sc[0]; arr *a = &q->a[0], *b = &q->a[1], *e = &q->a[2];
   need(a, n); need(b, n); need(e, 8);
-  for(int x = 0; x < 3; x++){
+  for(int x = 0; x < 9; x++){
     dvector *yt, *yp; NewDVector(&yt, n); NewDVector(&yp, n);
-    for(int i = 0; i < n; i++){ yt->data[i] = a->v[i] == MISSCODE ? (double)MISSING : ldexp((double)a->v[i], EXPS[x]); yp->data[i] = ldexp((double)b->v[i], EXPS[x]); }
-    check_reg("", yt, yp, e->v, EXPS[x]);
+    cur_off = VAR[x].off;
+    for(int i = 0; i < n; i++){
+      yt->data[i] = a->v[i] == MISSCODE ? (double)MISSING : ldexp((double)a->v[i] + VAR[x].off, VAR[x].ex);
+      yp->data[i] = ldexp((double)b->v[i] + VAR[x].off, VAR[x].ex);
+    }
+    check_reg(cur_off == 0.0 ? 1e-12 : 1e-8, yt, yp, e->v, VAR[x].ex);
     DelDVector(&yt); DelDVector(&yp);
   }
+  cur_off = 0.0;
 }
 
 /* ---- table builders ---- */
@@ -216,7 +239,7 @@ static int do_replay(const char *cases, const char *out, const char *fam){
   while(read_case(f, &q)){
     idx++;
     if(!strcmp(q.fam, fam)){
-      cur_i = idx; mm.bad = 0; ran++;
+      cur_i = idx; nmm = 0; cur_off = 0.0; ran++;
       if(!strcmp(fam, "Roc")) replay_roc(&q);
       else if(!strcmp(fam, "Reg")) replay_reg(&q);
       else if(!strcmp(fam, "PlsReg")) replay_regtab(&q, 0);
@@ -224,7 +247,11 @@ static int do_replay(const char *cases, const char *out, const char *fam){
       else if(!strcmp(fam, "PlsDa")) replay_da(&q);
       else { fprintf(stderr, "unknown family %s\n", fam); return 2; }
       cur_i = -1;
-      if(mm.bad) VRT_EMIT("{\"e\":\"Res\",\"fam\":\"%s\",\"i\":%ld,\"ok\":0,\"fn\":\"%s\",\"what\":\"%s\",\"got\":\"%.17g\",\"want\":\"%.17g\"}", fam, idx, mm.fn, mm.what, mm.got, mm.want);
+      if(nmm){
+        jp = 0; J("{\"e\":\"Res\",\"fam\":\"%s\",\"i\":%ld,\"ok\":0,\"fails\":[", fam, idx);
+        for(int k = 0; k < nmm; k++) J("%s{\"fn\":\"%s\",\"shifted\":%d,\"what\":\"%s\",\"got\":\"%.17g\",\"want\":\"%.17g\"}", k ? "," : "", mmv[k].fn, mmv[k].shifted, mmv[k].what, mmv[k].got, mmv[k].want);
+        J("]}"); VRT_EMIT("%s", jb);
+      }
       else VRT_EMIT("{\"e\":\"Res\",\"fam\":\"%s\",\"i\":%ld,\"ok\":1}", fam, idx);
     }
     free_case(&q);
@@ -235,10 +262,6 @@ static int do_replay(const char *cases, const char *out, const char *fam){
 }
 
 /* ================= validate direction ================= */
-static char jb[1 << 17]; static int jp;
-#define J(...) do{ jp += snprintf(jb + jp, sizeof(jb) - jp, __VA_ARGS__); if(jp >= (int)sizeof(jb) - 64){ fprintf(stderr, "event too long\n"); exit(2); } }while(0)
-static void jints(const char *key, long *v, int n){ J(",\"%s\":[", key); for(int i = 0; i < n; i++) J("%s%ld", i ? "," : "", v[i]); J("]"); }
-
 static int cmp_desc(const void *a, const void *b){ double x = ((const double *)a)[0], y = ((const double *)b)[0]; return x < y ? 1 : (x > y ? -1 : 0); }
 /* rank order of tie-free scores: ord[r] = 1-based object at rank r, descending.  Returns 0 when two scores are equal. */
 static int order_of(double *s, int n, long *ord){
@@ -309,14 +332,14 @@ static int strictly_same_order(double *a, double *b, int n){       /* b must ord
   free(oa); free(ob); return ok;
 }
 
-static void emit_reg(int n, long *a, long *b, int ex){
+static void emit_reg(int n, long *a, long *b, int ex, long off){
   dvector *yt, *yp; NewDVector(&yt, n); NewDVector(&yp, n);
   int m = 0;
-  for(int i = 0; i < n; i++){ if(a[i] != MISSCODE) m++; yt->data[i] = a[i] == MISSCODE ? (double)MISSING : ldexp((double)a[i], ex); yp->data[i] = ldexp((double)b[i], ex); }
+  for(int i = 0; i < n; i++){ if(a[i] != MISSCODE) m++; yt->data[i] = a[i] == MISSCODE ? (double)MISSING : ldexp((double)a[i] + (double)off, ex); yp->data[i] = ldexp((double)b[i] + (double)off, ex); }
   double mse = MSE(yt, yp), mae = MAE(yt, yp), rmse = RMSE(yt, yp), r2 = R2(yt, yp), bias = BIAS(yt, yp);
   double s1 = ldexp(1.0, -ex), s2 = ldexp(1.0, -2 * ex);
   long ssen = (long)llround(mse * s2 * m), saen = (long)llround(mae * s1 * m);
-  jp = 0; J("{\"e\":\"RegIn\",\"n\":%d,\"exp\":%d", n, ex); jints("yt", a, n); jints("yp", b, n); J(",\"m\":%d}", m);
+  jp = 0; J("{\"e\":\"RegIn\",\"n\":%d,\"exp\":%d,\"off\":%ld", n, ex, off); jints("yt", a, n); jints("yp", b, n); J(",\"m\":%d}", m);
   VRT_EMIT("%s", jb);
   VRT_EMIT("{\"e\":\"Mse\",\"ssen\":%ld,\"res\":%ld}", ssen, vq12(fabs(mse * s2 - (double)ssen / m)));
   VRT_EMIT("{\"e\":\"Mae\",\"saen\":%ld,\"res\":%ld}", saen, vq12(fabs(mae * s1 - (double)saen / m)));
@@ -383,7 +406,9 @@ static int do_trace(const char *out, long seed, int blocks, int maxn){
         if(varies && cnt >= 2) break;
       }
       static const int EX[5] = { -20, -7, 0, 9, 20 };
-      emit_reg(rn, a, c, EX[vr_int(&R, 0, 4)]);
+      /* common offset: |mean| / spread up to 1e9 (TLC recomputes from the integer deviations; Stats!ThShiftInvariant) */
+      static const long OFF[8] = { 0, 0, 1000, 1000000, -1000000, 30000000, 250000000, 1000000000 };
+      emit_reg(rn, a, c, EX[vr_int(&R, 0, 4)], OFF[vr_int(&R, 0, 7)]);
     }
     free(y); free(y2); free(s); free(t); free(tmp);
   }
@@ -411,7 +436,8 @@ static int do_one(const char *cases, const char *out){
     }
     else if(!strcmp(q.fam, "Reg")){
       VRT_EMIT("{\"e\":\"Reset\",\"n\":%d}", n);
-      for(int x = 0; x < 3; x++) emit_reg(n, q.a[0].v, q.a[1].v, EXPS[x]);
+      for(int x = 0; x < 3; x++) emit_reg(n, q.a[0].v, q.a[1].v, EXPS[x], 0);
+      emit_reg(n, q.a[0].v, q.a[1].v, 0, 1048576); emit_reg(n, q.a[0].v, q.a[1].v, 0, 1073741824); emit_reg(n, q.a[0].v, q.a[1].v, 7, -33554432);
     }
     free_case(&q);
   }
